@@ -189,7 +189,8 @@ class World:
             if self.stork.kids[number] is None:
                 continue
             member = ("active" if number in obs.active
-                      else "released" if number in obs.released else None)
+                      else "released" if number in obs.released
+                      or number in self.was_released else None)
             if member is None or (obs.fields[number], member) in classes:
                 continue
             classes.add((obs.fields[number], member))
@@ -198,6 +199,9 @@ class World:
                 ops.append(("supply", number, "zero"))
             if supply != demand:
                 ops.append(("supply", number, "demand"))
+            if member == "released" and supply == 0:
+                # resources requested before the release arrive late (and drain afterwards)
+                ops.append(("supply", number, "one"))
             for value in (0, 1):
                 if utilisation != value:
                     ops.append(("util", number, value))
@@ -217,7 +221,7 @@ class World:
             self.written = op[1]
         elif what == "supply":
             kid = self.stork.kids[op[1]]
-            kid.supply = kid.demand if op[2] == "demand" else 0
+            kid.supply = {"demand": kid.demand, "zero": 0, "one": 1}[op[2]]
         elif what == "util":
             self.stork.kids[op[1]].utilisation = op[2]
         elif what == "quit":
@@ -279,7 +283,8 @@ class World:
         if alive:
             problems.append(("released:demand-not-zero", "released children %r have demand %r"
                              % (alive, [fields[number][0] for number in alive])))
-        members = sorted(set(obs.members()))
+        # "all children": what the pool lists, and every released child that still exists
+        members = sorted(set(obs.members()) | (self.was_released & set(fields)))
         pool = self.pool
         try:
             want = sum(fields[number][1] for number in members)
@@ -568,7 +573,8 @@ def run(ctx):
                      for number, scenario in enumerate(every)])
     counters = ctx.acc.counters
     ctx.meta.update(
-        rule="BFS over histories of {write D in %r, child supply := 0 | its demand, child "
+        rule="BFS over histories of {write D in %r, child supply := 0 | its demand (a released "
+             "child without supply: := 1, resources arriving late), child "
              "utilisation := 0 | 1, child gives up its demand, harness forgets a released "
              "child + gc.collect(), adjust = one cycle of the real run() under a mock clock} "
              "to depth %d from every scenario (initial children: none, one, an ordered pair "
